@@ -113,7 +113,17 @@ def judge(ctx, case):
     if ctx.skip():
         return
     rich.register_user_transform()
-    d, spec, t = case["design"], case["frame"], case["transform"]
+    if case.get("huge"):
+        # more rows than fit in one block of any chunked computation; the frame is described by its recipe, not stored
+        r = case["huge"]
+        spec = frames.factorial_spec({"f": 2, "g": 3}, r["reps"], seed=r["seed"], catkinds={"f": "cat", "g": "str"})
+        nrow = frames.nrows(spec)
+        perm = sorted(range(nrow), key=lambda i: ((i + 1) * (r["seed"] + 5) * frames.PHI) % 1.0)
+        d, t = case["design"], {"kind": "permute", "perm": perm}
+        sample_frame = {"factorial": r, "rows": nrow}
+    else:
+        d, spec, t = case["design"], case["frame"], case["transform"]
+        sample_frame = spec
     holes = case.get("holes") or {}
     if holes:
         from vf.checks.c09 import with_holes
@@ -129,7 +139,7 @@ def judge(ctx, case):
     identity = (perm is not None and perm == list(range(len(perm)))) or (t["kind"] == "remove_unused" and len(spec2["cols"]) == len(spec["cols"]))
     interesting = bool(case.get("big")) or any("(" in a or a in ("f", "g", "h", "u") for tt in d["terms"] + [e for g in d["groups"] for e in g["effects"]] for a in tt) or bool(d["groups"])
     ctx.count(core.canon(case), interesting and not identity and frames.nrows(spec) >= 3, ["transform:" + t["kind"] + (":" + t["index"] if "index" in t else ""),
-              "response:" + d["response"].split("[")[0].split("(")[0]] + (["missing_values"] if holes else []), sample={"formula": formula, "transform": t, "frame": spec}, stratum="transform:" + t["kind"])
+              "response:" + d["response"].split("[")[0].split("(")[0]] + (["missing_values"] if holes else []), sample={"formula": formula, "transform": t if not case.get("huge") else "permute", "frame": sample_frame}, stratum="transform:" + t["kind"])
     try:
         with core.Guard():
             a = design_summary(design_matrices(formula, frame, extra_namespace=ns, **nakw))
@@ -181,11 +191,19 @@ def _worker(ctx, arg):
     core.run_hypothesis(ctx, case_strategy(), judge, n, shard=shard)
 
 
+HUGE_FORMULAS = ["y ~ x + (x | g)", "y ~ (1 | g) + (0 + z | f)"]
+
+
 def _big_worker(ctx, arg):
+    if arg < 0:
+        f = HUGE_FORMULAS[-arg - 1]
+        judge(ctx, {"design": {"response": "y", "intercept": "implicit", "terms": [], "groups": [{"factor": "g"}], "formula": f},
+                    "huge": {"reps": 11000 + 7 * (ctx.seed % 5), "seed": ctx.seed % 7}, "holes": {}, "big": True})
+        return
     judge(ctx, big_case(arg, ctx.seed))
 
 
 def run(ctx):
-    ctx.parallel(_big_worker, list(range(4 if ctx.tier == "quick" else 16)))
+    ctx.parallel(_big_worker, list(range(4 if ctx.tier == "quick" else 16)) + [-1, -2])
     per = 250 if ctx.tier == "quick" else 2500
     ctx.parallel(_worker, [(k, per) for k in range(core.NPROC)])
